@@ -4,6 +4,7 @@ import (
 	"fmt"
 	"go/ast"
 	"go/types"
+	"strconv"
 	"strings"
 )
 
@@ -16,7 +17,11 @@ func NewImportNames(specs []*ast.ImportSpec) ImportNames {
 	var noNames []string
 
 	for _, spec := range specs {
-		pkgPath := strings.ReplaceAll(spec.Path.Value, `"`, "")
+		// The path is a string literal in either form: "path" or `path`.
+		pkgPath, err := strconv.Unquote(spec.Path.Value)
+		if err != nil {
+			pkgPath = strings.ReplaceAll(spec.Path.Value, `"`, "")
+		}
 		var name string
 		if spec.Name != nil {
 			name = spec.Name.Name
